@@ -8,7 +8,7 @@ def run(c, a):
                    "nested marks and nested unknowns at every position. The harness runs Call, ReturnType and ReturnTypeForValues under recover; TLC "
                    "judges NoGoPanic, NoPanicError, ResultConformsStatic, ResultConformsDynamic, ValuePredictionRejectsSuccess, "
                    "KnownSuccessNotRejectedStatically. Non-trivial = successful call.")
-    c.assumptions = ["bytes (capsule) functions byteslen/bytesslice are not enumerated", "argument pools are bounded menus; RandomSubset thinning is seeded"]
+    c.assumptions = ["argument pools are bounded menus; RandomSubset thinning is seeded"]
     c.build_harness()
     if a.replay:
         return replay_std(c, c.load_replay(a.replay))
@@ -23,7 +23,12 @@ def run(c, a):
     c.gen_parallel(jobs)
     pairs = [(o, o.replace("c13ivec-", "c13iev-")) for o in outs]
     c.harness_parallel("ops", pairs)
-    ev = c.concat([p[1] for p in pairs] + [ev1], c.path("c11events.ndjson"))
+    # conversion functions built for representative target types (MakeToFunc)
+    tov = c.path("vec-to.ndjson")
+    c.gen_parallel([("MarkGen", {"VFAM": "to", "VTIER": c.tier, "VOUT": tov})])
+    toe = c.path("ev-to.ndjson")
+    c.harness("ops", toe, inp=tov)
+    ev = c.concat([p[1] for p in pairs] + [ev1, toe], c.path("c11events.ndjson"))
     c.sample_events(ev, 2, lambda l: '"ok":true' in l and '"fn":"merge"' in l)
     c.sample_events(ev, 1, lambda l: '"fn":"format"' in l)
     c.trace("StdlibTrace", ev)
